@@ -148,8 +148,20 @@ fn multiset(v: &[Ev]) -> BTreeMap<&Ev, usize> {
     m
 }
 
+thread_local! {
+    /// compare effect histories as sets instead of multisets (terms with effects in path positions:
+    /// the tree may build such a stream twice, once to see whether it has a single output)
+    static AS_SETS: std::cell::Cell<bool> = const { std::cell::Cell::new(false) };
+}
+
 /// events of `a` that `b` does not allow
 fn excess(a: &[Ev], b: &[Ev]) -> Vec<Ev> {
+    if AS_SETS.with(|s| s.get()) {
+        let allowed: BTreeSet<&Ev> = b.iter().collect();
+        let mut out: Vec<Ev> = a.iter().filter(|e| !allowed.contains(e)).cloned().collect();
+        out.dedup();
+        return out;
+    }
     let (ma, mb) = (multiset(a), multiset(b));
     let mut out = Vec::new();
     for (e, n) in ma {
@@ -180,6 +192,7 @@ fn show(ev: &[Ev]) -> String {
 }
 
 pub fn judge(c: &Case) -> Verdict {
+    AS_SETS.with(|s| s.set(c.term.has_path_effects()));
     let m = run_model(c);
     let want = m.outs.len();
     // pull one more than the model has (to see the end), but never beyond K
@@ -313,7 +326,12 @@ impl G<'_> {
     }
     /// a marker placed where it must (usually) not be reached
     fn hazard(&mut self) -> T {
-        match self.rng.usize(8) {
+        match self.rng.usize(9) {
+            8 => {
+                // halting is an effect of its own: marked by a probe so that reaching it shows
+                let m = self.mk();
+                T::Pipe(Box::new(m), Box::new(T::Halt))
+            }
             0 | 1 | 2 => T::Bomb,
             3 => T::Err,
             4 => T::Input,
@@ -339,7 +357,21 @@ impl G<'_> {
                 _ => T::Dot,
             };
         }
-        match self.rng.usize(34) {
+        match self.rng.usize(36) {
+            34 | 35 => {
+                // an effectful, multi-valued index or slice bound: definitionally
+                // `Z as $z | .[a:$z]`, so what lies behind the consumed bound must not run
+                let mut z = self.hazard();
+                for _ in 0..1 + self.rng.usize(2) {
+                    let m = self.mk();
+                    z = T::Comma(bx(m), bx(z));
+                }
+                if self.rng.chance(1, 2) {
+                    T::SliceTo(self.rng.range(0, 2), bx(z))
+                } else {
+                    T::IndexAt(bx(z))
+                }
+            }
             0..=4 => {
                 let a = self.stream(d - 1);
                 let b = if self.rng.chance(1, 3) { self.hazard() } else { self.stream(d - 1) };
@@ -653,9 +685,8 @@ fn well_scoped(t: &T, vars: &mut Vec<String>, labels: &mut Vec<String>) -> bool 
             well_scoped(a, vars, labels) && well_scoped(b, vars, labels)
         }
         T::TryQ(a) | T::First(a) | T::Limit(_, a) | T::Skip(_, a) | T::Nth(_, a) | T::IsEmpty(a) | T::Any(a, _)
-        | T::All(a, _) | T::Arr(a) | T::Rec(a) | T::Repeat(a) | T::Recurse(a) | T::While(_, a) | T::Until(_, a) => {
-            well_scoped(a, vars, labels)
-        }
+        | T::All(a, _) | T::Arr(a) | T::Rec(a) | T::Repeat(a) | T::Recurse(a) | T::While(_, a) | T::Until(_, a)
+        | T::SliceTo(_, a) | T::IndexAt(a) => well_scoped(a, vars, labels),
         _ => true,
     }
 }
@@ -841,6 +872,7 @@ fn term_tags(t: &T) -> BTreeSet<&'static str> {
             T::Mk(_) | T::Lit(_) | T::Dot | T::PDot | T::Inc | T::Empty | T::Var(_) | T::AddVar(_) => "leaf",
             T::Bomb => "bomb",
             T::Err => "error",
+            T::Halt => "halt",
             T::Input => "input",
             T::Inputs => "inputs",
             T::Comma(..) => "comma",
@@ -865,6 +897,7 @@ fn term_tags(t: &T) -> BTreeSet<&'static str> {
             T::While(..) => "while",
             T::Until(..) => "until",
             T::Range(..) => "range",
+            T::SliceTo(..) | T::IndexAt(_) => "path_position",
         });
         match t {
             T::Comma(a, b) | T::Pipe(a, b) | T::Alt(a, b) | T::Try(a, b) | T::As(a, _, b) | T::If(_, a, b) => {
@@ -873,7 +906,7 @@ fn term_tags(t: &T) -> BTreeSet<&'static str> {
             }
             T::TryQ(a) | T::Label(_, a) | T::First(a) | T::Limit(_, a) | T::Skip(_, a) | T::Nth(_, a) | T::IsEmpty(a)
             | T::Any(a, _) | T::All(a, _) | T::Arr(a) | T::Rec(a) | T::Repeat(a) | T::Recurse(a) | T::While(_, a)
-            | T::Until(_, a) => go(a, s),
+            | T::Until(_, a) | T::SliceTo(_, a) | T::IndexAt(a) => go(a, s),
             T::Foreach(a, _, _, u, e) => {
                 go(a, s);
                 go(u, s);
